@@ -91,3 +91,13 @@ func init() {
 		{Name: "roundtrip", Pkg: "internal/fees", Files: c13files, Entry: "VerifC13RoundTrip"},
 	}})
 }
+
+func init() {
+	register(PropSpec{ID: "C28", Harnesses: []HarnessSpec{
+		{Name: "parse", Pkg: "codec", Files: []string{"codec/c28_address.go"}, Entry: "VerifC28Parse", Reach: []string{"accepted", "rejected"},
+			Stubs:   []string{"hashing.Checksum = uninterpreted function per input length (the real SHA-256 in the native replay); inputs carry their checksum by construction"},
+			Outside: []string{"payload lengths other than the listed `payloadLens` representatives", "strings with more than one trailing character"}},
+		{Name: "roundtrip", Pkg: "codec", Files: []string{"codec/c28_address.go"}, Entry: "VerifC28RoundTrip",
+			Stubs: []string{"hashing.Checksum = uninterpreted function"}},
+	}})
+}
